@@ -273,7 +273,8 @@ class SetAlg:
         if h == "comp" and t[1] in ("set", "list", "gen"):
             r = self._comp_member(e, t[2], t[3])
             if r is not None:
-                return r
+                ax = self._gen_axioms(tuple(t[3])) if r is not False else []
+                return f_and(r, *ax) if ax else r
             if len(t[3]) >= 1 and not (isinstance(t[2], tuple) and t[2] and t[2][0] == "%payload"):
                 # {x for s in S for x in f(s)} = ⋃_{s in S} f(s): a comprehension with several generators is a big union
                 return self._member_part(e, ("bigunion", ("comp", "set", ("setlit", (t[2],)), tuple(t[3]))))
@@ -358,7 +359,27 @@ class SetAlg:
                 out.append(("bigunion", ("comp", "set", p, gens)))
         return out
 
+    def _gen_axioms(self, gens: tuple) -> list:
+        """An element drawn through `for a, b in combinations(X, 2)` exists only when X has two or more elements."""
+        out = []
+        for _pat, it, _conds in gens:
+            src = self.strip(it) if it[0] != "call" else it
+            if src[0] == "call" and isinstance(src[1], str) and src[1].split(".")[-1] in ("combinations", "permutations") and len(src[2]) == 2 \
+                    and src[2][1][0] == "const" and isinstance(src[2][1][1], int) and src[2][1][1] >= 2:
+                X = src[2][0]
+                ne = self.cond(("truth", X))
+                out.append(f_and(ne, f_not(("atom", ("len1", self.canon_set(X))))))
+        return out
+
     def _member_part(self, e: Term, p: Term) -> Formula:
+        r = self._member_part0(e, p)
+        if p[0] == "bigunion" and r is not False:
+            ax = self._gen_axioms(tuple(p[1][3]))
+            if ax:
+                return f_and(r, *ax)
+        return r
+
+    def _member_part0(self, e: Term, p: Term) -> Formula:
         if p[0] != "bigunion":
             return self.member(e, p)
         comp = p[1]
@@ -625,6 +646,9 @@ class SetAlg:
             return self.canon_set(t)
         if h == "call" and isinstance(t[1], str) and (t[1] in CHAIN_NAMES or t[1].endswith("chain.from_iterable")) and len(t[2]) == 1:
             return self.canon_set(("bigunion", t[2][0]))
+        if h == "call" and t[1] in ("tuple", "list") and len(t[2]) == 1 and not t[3] and t[2][0][0] == "comp" and t[2][0][1] in ("list", "gen"):
+            # tuple(<comprehension>) / list(<generator>): the same sequence of items
+            return self.canon_opaque(t[2][0])
         if h == "comp":
             gens = tuple((self.canon(p), self.canon(self.strip(i) if t[1] in ("set",) else i), tuple(self._canon_cond(c) for c in cs)) for p, i, cs in t[3])
             # a generator expression handed to a consumer is the sequence a list comprehension would hold
